@@ -12,7 +12,7 @@ import sqlite3
 
 from vf import core, monitors
 from vf.gen import fedgen
-from vf.ref.plan_interp import Interp, NotInterpretable
+from vf.ref.plan_interp import Interp, MissingTable, NotInterpretable
 
 ID = 'C15'
 LEVEL = 'translation_validation'
@@ -200,6 +200,9 @@ def run_shard(ctx):
                 val = int(m.group(2))
         m = re.search(r't\.g = (\d+)', text)
         part_filter = int(m.group(1)) if m else None
+        # (the generator also says what it wrote: conditions may be qualified by the model's alias or written value-first)
+        if 'val' in info:
+            val, part_filter = info['val'], info['part_value']
         acc.ev()
         try:
             plan = plan_query(parse_sql(text, 'mindsdb'), **copy.deepcopy(kw))
@@ -230,6 +233,11 @@ def run_shard(ctx):
         try:
             try:
                 ids, log, ap = data_step_rows(db, plan)
+            except MissingTable as e:
+                # e.g. a condition still qualified by the MODEL's alias, sent to the data integration
+                acc.fail({'part': 'fetch-names-something-the-table-does-not-have', 'op': op, 'qualifier': info.get('qualifier'), 'value_first': info.get('value_first')},
+                         {'text': text, 'why': str(e)[:200], 'plan': [str(s)[:260] for s in plan.steps][:6]})
+                continue
             except NotInterpretable as e:
                 if 'Latest' in str(e):
                     # LATEST is the planner's own marker: it stays in output_time_filter, no integration can evaluate it
